@@ -244,6 +244,55 @@ pub fn handle(op: &str, a: &[&str]) -> Option<Resp> {
             }
         }
     };
+    // relationship fields: the typed (lossy) value is what the LOSSLESS relation reader shows for the
+    // raw field text — compared through the crate's lossless -> lossy conversion of single relations,
+    // which does not use the lossy parser (after seeded change C20-r7m1: a negation flag never reset
+    // in the lossy relation parser). Only on C03-well-formed text without substitution variables.
+    if let Ok(v1) = &r1 {
+        if fail.is_none() && !not_c03_wellformed(&t) && !t.contains('$') {
+            use debian_control::lossless::relations::Relations as LRels;
+            let canon_of = |raw: &str| -> Option<String> {
+                let l = LRels::from_str(raw).ok()?;
+                std::panic::catch_unwind(std::panic::AssertUnwindSafe(|| {
+                    l.entries()
+                        .map(|e| {
+                            e.relations()
+                                .map(|r| {
+                                    let y: debian_control::lossy::Relation = r.into();
+                                    y.to_string()
+                                })
+                                .collect::<Vec<_>>()
+                                .join(" | ")
+                        })
+                        .filter(|e| !e.is_empty())
+                        .collect::<Vec<_>>()
+                        .join(", ")
+                }))
+                .ok()
+            };
+            let (doc, errs) = deb822_lossless::Deb822::from_str_relaxed(&t);
+            if errs.is_empty() {
+                'outer: for (sid, fields) in &v1.structs {
+                    let row = match crate::derive::struct_row(sid) {
+                        Some(r) => r,
+                        None => continue,
+                    };
+                    for (k, printed) in fields {
+                        if !row.fields.iter().any(|f| &f.key == k && f.ty == "Relations") {
+                            continue;
+                        }
+                        // the raw texts of field k anywhere in the document, read by the lossless reader
+                        let shown: Vec<String> = doc.paragraphs().filter_map(|p| p.get(k)).filter_map(|raw| canon_of(&raw)).collect();
+                        let raws: usize = doc.paragraphs().filter_map(|p| p.get(k)).count();
+                        if raws > 0 && shown.len() == raws && !shown.iter().any(|c| c == printed) {
+                            fail = Some(format!("relationship field {}: the typed value prints {:?}, the lossless relation reader shows {:?}", k, printed, shown));
+                            break 'outer;
+                        }
+                    }
+                }
+            }
+        }
+    }
     // the lossless view of the same text (lossy-reader kinds)
     let ll = match lossless_view(kind, &t) {
         None => "-".to_string(),
